@@ -265,6 +265,13 @@ def run(rep, tier, seed):
             seen.add(k)
             uniq.append(b)
     replay_all(rep, uniq, pool2["docs"], pool2["npool"], "simulate")
+    acts = {h["step"]["act"] for b in uniq for h in b["hist"]}
+    if not {"Combine", "MkPart", "MkMol", "PartFilter"} <= acts:
+        raise tlc.MachineryError(f"vacuity: generated behaviours never take {{'Combine','MkPart','MkMol','PartFilter'}} - {acts}")
+    outs = {h["step"]["out"] for b in behs + uniq for h in b["hist"]}
+    if "raised:TypeError" not in outs:
+        raise tlc.MachineryError("vacuity: no generated behaviour contains the key/index refusal")
+    rep.extra["actions_taken"] = sorted(acts)
     for b in (behs[:1] + uniq[:1]):
         rep.sample({"behaviour": [h["step"] for h in b["hist"]]})
     for b in behs + uniq:
